@@ -504,11 +504,10 @@ func ruleAcceptedSampledAfterAttempt(c *Ctx) {
 			continue
 		}
 		for _, call := range p.callsIn(fn, "objects.Queue.setAllocatingAccepted") {
-			owner := p.EnclosingFunc(call.Pos())
-			if owner == nil {
+			st := p.StateAtIn(fn, call)
+			if st == nil {
 				continue
 			}
-			st := p.StateAt(owner, call)
 			attempt := p.DoneCall(st, nil, "objects.Application.tryAllocate", "objects.Application.tryReservedAllocate", "objects.Application.tryPlaceholderAllocate")
 			n++
 			ok := attempt != nil && p.Holds(st, p.CallAtom(true, func(cl *ast.CallExpr, a Atom) bool { return cl.Pos() > attempt.End() }, "objects.Application.IsAccepted"))
